@@ -144,6 +144,7 @@ extern "C" __attribute__((noinline)) void h_realsp() {
     else { verif_check(!badAtv, 8); verif_cover(4); }
   }
   if (cont != vbkBest0) verif_cover(5);                                   // the VTB sat on the non-best VBK branch
+  verif_check(vbkIndexExact(t), 30);                                      // the VBK payload index holds exactly the VTBs of the existing VBK blocks, whatever was rolled back
   verif_observe(t.vbk().getBestChain().tip()->getHash().data()[23]);
 }
 #endif
